@@ -151,6 +151,18 @@ def gen_blocks(R, count):
 
 def run_items(R, items):
     results = pmap("c17", "impl_one", items, deadline=60.0, workers=12)
+    # the model's own brute-force optimum over all stable matchings, for the simulated values (which are compared with the
+    # model's `simulate2` below): C03_optStable_spec / C17_brute_optimal
+    from harness import c03
+    bitems, bres = [], []
+    for it, r in zip(items, results):
+        if isinstance(r, dict) and "pairs" in r and "S1" in r and len(it["P1"]) <= c03.BRUTE_N:
+            try:
+                bitems.append(dict(it, V1=[[int(x) for x in row] for row in r["S1"]], V2=[[int(x) for x in row] for row in r["S2"]]))
+                bres.append(r)
+            except Exception:  # noqa
+                pass
+    c03.brute_compare(R, bitems, bres, entry=ENTRY)
     need, idx = [], []
     for i, (it, r) in enumerate(zip(items, results)):
         if "pairs" in r:
